@@ -1347,7 +1347,14 @@ class Interp:
         else:
             cur = self.ev(n.target)
         v = self.ev(n.value)
-        self.assign(n.target, self.binop(n.op, cur, v, n), n)
+        new = self.binop(n.op, cur, v, n)
+        if isinstance(cur, Arr) and isinstance(new, Arr):
+            # `a op= b` on an array: in place on NumPy/Torch (every alias sees it), rebinding on immutable JAX arrays - both explored
+            self.path.ex.assumed.add("augmented assignment on an array mutates it in place (NumPy, Torch) or rebinds the name (JAX)")
+            if self.path.choose(2, "augassign-inplace") == 0:
+                cur.at, cur.key, cur.n, cur.elem, cur.facts = new.at, new.key, new.n, new.elem, new.facts
+                return
+        self.assign(n.target, new, n)
 
     def s_If(self, n):
         c = self.ev(n.test)
